@@ -223,3 +223,67 @@ def b_positions(rng, tier, k=0, n=1):
                     yield ((pl, "seam", round(e.jde(), 7)), all(0.0 <= v < 360.0 for v in vals), vals)
                 break
             lprev = lcur
+
+
+# ---- the planets' wrappers hand their own tables and their flags to the series functions (proved above)
+def _wrapper_contracts():
+    def grab(which):
+        def c(it, fref, args, kwargs):
+            it.info.setdefault("vsop_calls", []).append((which, list(args), dict(kwargs)))
+            from pyvc.interp import SObj
+            mk = lambda nm: SObj("Angle", {"_deg": Num.real_var(nm), "_tol": Num.of(1e-10)})
+            return (mk("L"), mk("B"), Num.real_var("R"))
+        return c
+    return {"pymeeus.Coordinates:geometric_vsop_pos": grab("geometric_vsop_pos"),
+            "pymeeus.Coordinates:apparent_vsop_pos": grab("apparent_vsop_pos")}
+
+
+def _wrapper_cases():
+    import inspect
+    out = []
+    for pl in PLANETS:
+        cls = getattr(importlib.import_module("pymeeus." + pl), pl)
+        for meth in ("geometric_heliocentric_position", "apparent_heliocentric_position", "geometric_heliocentric_position_j2000",
+                     "apparent_heliocentric_position_j2000"):
+            if hasattr(cls, meth):
+                out.append(dict(pl=pl, meth=meth))
+    return out
+
+
+@P.harness("wrappers/own-tables-and-flags-forwarded", cases=_wrapper_cases(), contracts=_wrapper_contracts, crosscheck=0,
+           functions=["pymeeus.<Planet>:<Planet>.geometric_heliocentric_position / apparent_heliocentric_position (8 planets, Earth J2000)"])
+def h_wrappers(ctx, pl, meth):
+    """<Planet>.geometric_heliocentric_position(epoch, tofk5) is geometric_vsop_pos(epoch, L, B, R of that planet's module, tofk5)
+    and apparent_heliocentric_position(epoch[, nutation]) is apparent_vsop_pos(epoch, L, B, R[, nutation]): the tables are the
+    module's own (the J2000 variants use VSOP87_L_J2000 / VSOP87_B_J2000) and an optional flag reaches the series function"""
+    import inspect
+    from pyvc.values import iff, SBool
+    if ctx.native:
+        return
+    mod = importlib.import_module("pymeeus." + pl)
+    cls = getattr(mod, pl)
+    params = list(inspect.signature(getattr(cls, meth)).parameters)
+    e = ctx.obj("Epoch")
+    ctx.setfield(e, "_jde", ctx.real("jde", 990000, 3200000))
+    flag = ctx.bool("flag") if len(params) > 1 else None
+    args = [e] + ([flag] if flag is not None else [])
+    ctx.call("pymeeus.%s:%s.%s" % (pl, pl, meth), *args)
+    calls = ctx.it.info.get("vsop_calls", [])
+    ctx.vc("exactly one call of the series function", len(calls) == 1)
+    if len(calls) != 1:
+        return
+    which, a, kw = calls[0]
+    ctx.vc("geometric wrapper -> geometric_vsop_pos, apparent wrapper -> apparent_vsop_pos",
+           which == ("geometric_vsop_pos" if meth.startswith("geometric") else "apparent_vsop_pos"))
+    j2000 = meth.endswith("_j2000")
+    want = [getattr(mod, "VSOP87_L_J2000" if j2000 else "VSOP87_L"), getattr(mod, "VSOP87_B_J2000" if j2000 else "VSOP87_B"),
+            getattr(mod, "VSOP87_R")]
+    ctx.vc("the epoch is passed on", a[0] is e)
+    for i, nm in enumerate(("L", "B", "R")):
+        got = a[1 + i] if len(a) > 1 + i else None
+        ctx.vc("table %s is this planet's own %s table" % (nm, "J2000" if j2000 and nm != "R" else "of-date"),
+               got is ctx.it.lift(want[i]))
+    if flag is not None:
+        passed = a[4] if len(a) > 4 else kw.get("tofk5", kw.get("nutation"))
+        ctx.vc("the optional flag (%s) reaches the series function" % params[1],
+               isinstance(passed, SBool) and iff(passed, flag))
